@@ -133,8 +133,13 @@ Fixpoint dna_assoc {V} (c : dna) (t : list (dna * V)) : option V :=
 Definition no_dual_stop (T : gtable) : bool :=
   forallb (fun c => match dna_assoc c (gt_forward T) with Some _ => false | None => true end) (gt_stops T).
 
+(* Biopython: a codon of the forward table is translated as its amino acid even when it is
+   also listed as a stop codon (dual-use tables) *)
 Definition codon_aa (T : gtable) (c : dna) : option ascii :=
-  if dna_mem c (gt_stops T) then Some "*"%char else dna_assoc c (gt_forward T).
+  match dna_assoc c (gt_forward T) with
+  | Some a => Some a
+  | None => if dna_mem c (gt_stops T) then Some "*"%char else None
+  end.
 
 Fixpoint codons_fuel (fuel : nat) (s : dna) : list dna :=
   match fuel with
